@@ -155,6 +155,18 @@ CLAIMED["C05"] = (
     "scipy hybr. Known finding D25 (isolated non-convergence at |Dec| >= 60).",
     "Lean 4 invariant/coverage proof over a state-machine model + traced-state correspondence + forward-mapping oracle", "DESIGN.md §6 C05")
 
+CLAIMED["C02"] = (
+    "Lean 4 theorems on the transform algebra (exact rationals): (l|r)^-1 = r^-1|l^-1, (l&r)^-1 = l^-1&r^-1, user-supplied inverses taken "
+    "verbatim, a missing inverse makes the whole inverse unavailable; the inverse of an n-step chain exists when every step's does and "
+    "evaluates as the step inverses in REVERSE order (induction over the chain); for every transform built from shifts, non-zero scales, "
+    "identities, stacks and compositions, inverse(eval x) = x and eval(inverse y) = y (structural induction, with arities), and the inverse "
+    "of the backward transform evaluates as the forward transform. PARTIAL: the sky projections / rotations (wcslib) are modelled - their "
+    "inverse law is a hypothesis, measured on every run for every zenithal projection x pointing x scale to 1e-6 px + conditioning. Tied to "
+    "gwcs by exact correspondence on generated pipelines (forward, both round trips, backward vs hand-composed reversed inverses, "
+    "backward.inverse, iterative kwargs ignored, in-place parameter change, per-frame round trips).",
+    "Trusted: Lean kernel; standard axioms; harness; astropy model inverses for leaves (modelled). Runtime behaviour not modelled: IEEE rounding, wcslib.",
+    "Lean 4 structural-induction proofs on the transform algebra + exact differential correspondence", "DESIGN.md §6 C02")
+
 NOT_YET = "check not built yet in this round; will be claimed once its Lean model, theorems and correspondence run green"
 
 
